@@ -687,7 +687,8 @@ func (service *serviceType) handleBuildRequest(id uint32, request map[string]int
 			Setup: func(build api.PluginBuild) {
 				build.OnStart(func() (api.OnStartResult, error) {
 					activeBuild.mutex.Lock()
-					if currentWaitGroup := activeBuild.rebuildWaitGroup; currentWaitGroup != nil && activeBuild.didGetCancel {
+					// Note: "dispose" may already have cleared the context by the time this runs
+					if currentWaitGroup, ctx := activeBuild.rebuildWaitGroup, activeBuild.ctx; currentWaitGroup != nil && ctx != nil && activeBuild.didGetCancel {
 						// Cancel the current build now that the current build is active.
 						// This catches the case where JS does "rebuild()" then "cancel()"
 						// but Go's scheduler runs the original "ctx.Cancel()" goroutine
@@ -703,7 +704,7 @@ func (service *serviceType) handleBuildRequest(id uint32, request map[string]int
 						// some independent future build.
 						activeBuild.rebuildWaitGroup.Add(1)
 						go func() {
-							activeBuild.ctx.Cancel()
+							ctx.Cancel()
 
 							// Lock the mutex because "sync.WaitGroup" isn't thread-safe.
 							// But use the wait group that was active at the time the
@@ -774,7 +775,9 @@ func (service *serviceType) handleBuildRequest(id uint32, request map[string]int
 
 		// Keep the build alive until "dispose" has been called
 		activeBuild.disposeWaitGroup.Add(1)
+		activeBuild.mutex.Lock()
 		activeBuild.ctx = ctx
+		activeBuild.mutex.Unlock()
 		shouldDestroyActiveBuild = false
 
 		return encodePacket(packet{
